@@ -7,7 +7,7 @@
 (2) unlimited PS (capacity inf, threshold 1) vs the real ciw.Node FIFO single server replaying the same arrivals and
     requirements through Sequential distributions: the instants at which the node becomes empty coincide.
 """
-import sys, random, collections
+import sys, os, random, collections
 import ciw
 from .. import gen, runner
 from .common import CapSim, guarded, Summary
@@ -129,9 +129,15 @@ def worker(job, extra):
                 visits.append((r.arrival_date, i.id_number, (i.id_number, k), rq[0][1], r))
             if i.node == nid and i.arrival_date is not False:   # still at the PS node at the end
                 rq = samples[-1][1] if samples and getattr(i, 'with_server', False) else None
-                visits.append((i.arrival_date, i.id_number, (i.id_number, len(rs)), rq, None))
+                visits.append((i.arrival_date, i.id_number, (i.id_number, len(rs)), rq, None, i.service_start_date))
         # order of simultaneous arrivals: engine list order is id order of acceptance; use (time, engine arrival sequence)
-        visits.sort(key=lambda v: (v[0], v[2][1], v[1]))
+        # simultaneous arrivals: their place in line is a free tie-break of the engine; take the order it chose (visible as
+        # the order of their recorded service starts) so that the model follows one legal resolution
+        def started(v):
+            if v[4] is not None: return float(v[4].service_start_date)
+            if len(v) > 5 and v[5] is not False: return float(v[5])     # still in service at the end of the run
+            return INF
+        visits.sort(key=lambda v: (v[0], started(v), v[2][1], v[1]))
         exp = ps_oracle([(v[0], v[2], v[3]) for v in visits], cap, R)
         # simultaneous events (two arrivals, or an arrival and a completion, at one instant) leave the order undetermined
         ev_times = sorted([float(v[0]) for v in visits] + [float(x[1]) for x in exp.values()])
@@ -143,9 +149,6 @@ def worker(job, extra):
             err = max(abs(s - r.service_start_date), abs(e - r.exit_date))
             res['compared'] += 1
             if err > 1e-6:
-                if tie_times and tie_times[0] <= float(max(e, r.exit_date)) + 1e-9:
-                    res['tie_ambiguous'] = res.get('tie_ambiguous', 0) + 1
-                    break    # order of simultaneous arrivals / completions is not determined by the records
                 res['viol'].append(('ps_trajectory_mismatch', (nid, v[2], (s, e), (r.service_start_date, r.exit_date), cap, R)))
                 break
             res['worst'] = max(res['worst'], err)
